@@ -160,6 +160,13 @@ class GeometricConstraintsRowWise(GeometricConstraints):
         self.type = DesignGeomType.ROWWISE
 
     def to_input(self) -> dict:
+        d = self._to_input()
+        if self.perimeter_spacing_ratio is None:
+            # optional input (the loader treats a missing key as "no perimeter spacing"); a null would not validate
+            del d['perimeter_spacing_ratio']
+        return d
+
+    def _to_input(self) -> dict:
         return {
             'perimeter_spacing_ratio': self.perimeter_spacing_ratio,
             'min_spacing': self.min_spacing,
